@@ -108,15 +108,17 @@ def run(replay=None):
     else:
         c.model_check("StreamsMap_MC.tla", "StreamsMap_MC.cfg")
         cases = []
-        L = 4 if not thorough else 5
+        L = 4   # 24 / 26 letters: L = 5 would be 8M / 12M sequences
         for uni in (False, True):
-            seqs = c.enumerate("StreamsMap_Env.tla", {"N": 3, "L": L if thorough else 3, "IsUni": uni})
+            seqs3 = c.enumerate("StreamsMap_Env.tla", {"N": 3, "L": 3, "IsUni": uni})
+            seqs4 = c.enumerate("StreamsMap_Env.tla", {"N": 3, "L": L, "IsUni": uni}) if thorough else []
             for g, cfg in GROUPS.items():
                 if cfg["uni"] != uni:
                     continue
                 if not thorough and not (cfg["limit"] == 2):
                     continue
-                for s in seqs:
+                # thorough: L = 4 for the limit-2 groups (measured: ~0.75 ms of TLC per case), L = 3 for the others
+                for s in (seqs4 if thorough and cfg["limit"] == 2 else seqs3):
                     cases.append({"group": g, "cfg": cfg, "ops": [named(o) for o in s]})
         nw = 6000 if not thorough else 60000
         cases += walks(c.rng, nw, 40)
